@@ -959,6 +959,11 @@ func checkC19(c *Ctx) {
 					*p = 1 + i%2
 				}
 			}
+			if i%6 == 4 {
+				// registration only: nothing is written after the last UE's registration, so a fault at
+				// its last messages can only be noticed by the read it hits
+				cfg.NPdu, cfg.NSvc, cfg.NRel, cfg.NDereg = 0, 0, 0, 0
+			}
 		}
 		var m, nw int
 		var dlLen []int
